@@ -85,20 +85,33 @@ fn b(x: bool) -> &'static str {
 pub fn exec(f: &[&str]) -> Option<String> {
     let bad = || Some("bad-request".to_string());
     Some(match f {
-        ["arrlen", d] => match jsonb::array_length(&unhex(d)?) {
-            Some(n) => format!("ok {}", n),
-            None => "none".into(),
-        },
+        ["arrlen", d] => {
+            let doc = unhex(d)?;
+            let r = jsonb::array_length(&doc);
+            // the same question on the decoded tree (the `Value` methods are public API and the other half of C05)
+            if let Some(m) = tree_mismatch(&doc, |v| v.array_length() == r) { return Some(m); }
+            match r { Some(n) => format!("ok {}", n), None => "none".into() }
+        }
         ["getidx", d, i] => opt_hex(jsonb::get_by_index(&unhex(d)?, i.parse().ok()?)),
         ["getname", d, n, ic] => {
             let name = match String::from_utf8(unhex(n)?) { Ok(s) => s, Err(_) => return bad() };
-            opt_hex(jsonb::get_by_name(&unhex(d)?, &name, *ic == "1"))
+            let doc = unhex(d)?;
+            let r = jsonb::get_by_name(&doc, &name, *ic == "1");
+            if *ic == "1" {
+                if let Some(m) = tree_mismatch(&doc, |v| v.get_by_name_ignore_case(&name).map(|x| x.to_vec()) == r) { return Some(m); }
+            } else if let Some(m) = tree_mismatch(&doc, |v| v.as_object().and_then(|o| o.get(&name)).map(|x| x.to_vec()) == r) { return Some(m); }
+            opt_hex(r)
         }
         ["getkp", d, kp] => {
             let kp = parse_keypath(kp)?;
             opt_hex(jsonb::get_by_keypath(&unhex(d)?, kp.iter()))
         }
-        ["keys", d] => opt_hex(jsonb::object_keys(&unhex(d)?)),
+        ["keys", d] => {
+            let doc = unhex(d)?;
+            let r = jsonb::object_keys(&doc);
+            if let Some(m) = tree_mismatch(&doc, |v| v.object_keys().map(|x| x.to_vec()) == r) { return Some(m); }
+            opt_hex(r)
+        }
         ["each", d] => match jsonb::object_each(&unhex(d)?) {
             Some(xs) => format!("ok {}", show_list(xs.iter().map(|(k, v)| format!("{}:{}", hex(k), hex(v))).collect())),
             None => "none".into(),
@@ -115,36 +128,42 @@ pub fn exec(f: &[&str]) -> Option<String> {
             let v = unhex(d)?;
             let r = jsonb::as_null(&v);
             if r.is_some() != jsonb::is_null(&v) { return Some("is/as mismatch".into()); }
+            { let r = r.clone(); if let Some(m) = tree_mismatch(&v, |v| v.as_null() == r && v.is_null() == r.is_some()) { return Some(m); } }
             match r { Some(()) => "ok null".into(), None => "none".into() }
         }
         ["asbool", d] => {
             let v = unhex(d)?;
             let r = jsonb::as_bool(&v);
             if r.is_some() != jsonb::is_boolean(&v) { return Some("is/as mismatch".into()); }
+            { let r = r.clone(); if let Some(m) = tree_mismatch(&v, |v| v.as_bool() == r && v.is_boolean() == r.is_some()) { return Some(m); } }
             match r { Some(x) => format!("ok {}", b(x)), None => "none".into() }
         }
         ["asnum", d] => {
             let v = unhex(d)?;
             let r = jsonb::as_number(&v);
             if r.is_some() != jsonb::is_number(&v) { return Some("is/as mismatch".into()); }
+            { let r2 = r.clone(); if let Some(m) = tree_mismatch(&v, |v| v.as_number().cloned() == r2 && v.is_number() == r2.is_some() && v.as_f64().map(f64::to_bits) == r2.as_ref().and_then(|n| n.as_f64()).map(f64::to_bits)) { return Some(m); } }
             match r { Some(n) => format!("ok {}", show_num(&n)), None => "none".into() }
         }
         ["asstr", d] => {
             let v = unhex(d)?;
             let r = jsonb::as_str(&v);
             if r.is_some() != jsonb::is_string(&v) { return Some("is/as mismatch".into()); }
+            { let r2 = r.as_ref().map(|c| c.to_string()); if let Some(m) = tree_mismatch(&v, |v| v.as_str().map(|c| c.to_string()) == r2 && v.is_string() == r2.is_some()) { return Some(m); } }
             match r { Some(s) => format!("ok {}", hex(s.as_bytes())), None => "none".into() }
         }
         ["asi64", d] => {
             let v = unhex(d)?;
             let r = jsonb::as_i64(&v);
             if r.is_some() != jsonb::is_i64(&v) { return Some("is/as mismatch".into()); }
+            { let r = r.clone(); if let Some(m) = tree_mismatch(&v, |v| v.as_i64() == r && v.is_i64() == r.is_some()) { return Some(m); } }
             match r { Some(x) => format!("ok {}", x), None => "none".into() }
         }
         ["asu64", d] => {
             let v = unhex(d)?;
             let r = jsonb::as_u64(&v);
             if r.is_some() != jsonb::is_u64(&v) { return Some("is/as mismatch".into()); }
+            { let r = r.clone(); if let Some(m) = tree_mismatch(&v, |v| v.as_u64() == r && v.is_u64() == r.is_some()) { return Some(m); } }
             match r { Some(x) => format!("ok {}", x), None => "none".into() }
         }
         ["isarr", d] => b(jsonb::is_array(&unhex(d)?)).to_string(),
@@ -215,4 +234,13 @@ pub fn exec(f: &[&str]) -> Option<String> {
 /// f64 bits with the NaN payload made canonical (sign kept)
 pub fn canon_bits(x: f64) -> u64 {
     if x.is_nan() { (x.to_bits() & 0x8000000000000000) | 0x7ff8000000000000 } else { x.to_bits() }
+}
+
+/// C05 is a statement about two public views of a document: the byte-level functions and the `Value` tree
+/// methods.  `ok(tree)` compares a byte-level answer with the tree method's answer on the decoded document.
+fn tree_mismatch(doc: &[u8], ok: impl FnOnce(&jsonb::Value) -> bool) -> Option<String> {
+    if !matches!(doc.first(), Some(0x20) | Some(0x40) | Some(0x80)) { return None; }
+    let v = jsonb::parse_jsonb(doc).ok()?;
+    if v.to_vec() != doc { return None; }          // only canonical documents: the property's domain
+    if ok(&v) { None } else { Some("MISMATCH the byte-level function and the Value method of the decoded tree answer differently".into()) }
 }
